@@ -1,7 +1,7 @@
 (* C15: the delimiter-driven walk of validateVisitGroupField accepts every group instance that the count-driven
    specification ([c15_member] of ValidateSpec.v) accepts, for dictionaries whose groups list each member once. *)
 From Coq Require Import ZArith List Bool Lia.
-From QF Require Import Base.Res Base.Bytes Codec.FixInt Dict.Xml Dict.Build Dict.Validate Dict.ValidateSpec Dict.SpecProofs Dict.BuildSound.
+From QF Require Import Base.Res Base.Bytes Codec.FixInt Dict.Xml Dict.Build Dict.Spec Dict.SpecExec Dict.Validate Dict.ValidateSpec Dict.SpecProofs Dict.BuildSound.
 Import ListNotations.
 Open Scope Z_scope.
 
@@ -59,3 +59,328 @@ Proof. reflexivity. Qed.
 
 Lemma c15_member_group_nil : forall ft r first fs, c15_member (DFD ft r (first :: fs)) [] = None.
 Proof. reflexivity. Qed.
+
+(* ---- well-formed definitions: the members of a group have pairwise different tags (recursively) ---- *)
+Fixpoint dfd_wfb (fd : dict_field_def) : bool :=
+  match fd with DFD _ _ fs => sp_nodup_zb (map dfd_tag fs) && forallb dfd_wfb fs end.
+Fixpoint dfd_width_okb (w : nat) (fd : dict_field_def) : bool :=
+  match fd with DFD _ _ fs => (length fs <=? w)%nat && forallb (dfd_width_okb w) fs end.
+
+Lemma dfd_wfb_inv : forall ft r fs, dfd_wfb (DFD ft r fs) = true ->
+  NoDup (map dfd_tag fs) /\ forall m, In m fs -> dfd_wfb m = true.
+Proof.
+  intros ft r fs H. cbn in H. apply andb_true_iff in H. destruct H as [H1 H2].
+  split; [apply sp_nodup_zb_sound; exact H1|]. rewrite forallb_forall in H2. exact H2.
+Qed.
+Lemma dfd_width_okb_inv : forall w ft r fs, dfd_width_okb w (DFD ft r fs) = true ->
+  (length fs <= w)%nat /\ forall m, In m fs -> dfd_width_okb w m = true.
+Proof.
+  intros w ft r fs H. cbn in H. apply andb_true_iff in H. destruct H as [H1 H2].
+  split; [apply Nat.leb_le; exact H1|]. rewrite forallb_forall in H2. exact H2.
+Qed.
+
+(* destruct the scrutinee of the match at the head of hypothesis H (taken from H itself: v_tv and Z * bytes are
+   convertible but not syntactically equal) *)
+Ltac dmatch H x E :=
+  match type of H with
+  | match ?X with _ => _ end = _ => destruct X as [x|] eqn:E
+  end.
+
+(* ---- the specification loops never lengthen the stack ---- *)
+Lemma c15_members_length : forall rec ms,
+  (forall m st r, In m ms -> rec m st = Some r -> (length r <= length st)%nat) ->
+  forall st r, c15_members_of rec ms st = Some r -> (length r <= length st)%nat.
+Proof.
+  intros rec. induction ms as [|m ms IH]; intros Hrec st r H; cbn in H.
+  - injection H as <-. lia.
+  - assert (Hrec' : forall m0 st0 r0, In m0 ms -> rec m0 st0 = Some r0 -> (length r0 <= length st0)%nat)
+      by (intros; eapply Hrec; [right; eassumption|eassumption]).
+    destruct st as [|[t1 v1] st'].
+    + destruct (dfd_required m); [discriminate|]. eapply IH; eauto.
+    + destruct (t1 =? dfd_tag m).
+      * dmatch H st2 E; [|discriminate].
+        pose proof (Hrec m _ _ (or_introl eq_refl) E). pose proof (IH Hrec' _ _ H). lia.
+      * cbv iota in H. destruct (dfd_required m); [discriminate|]. eapply IH; eauto.
+Qed.
+
+Lemma c15_entries_length : forall mem ftag,
+  (forall st r, mem st = Some r -> (length r <= length st)%nat) ->
+  forall k st r, c15_entries_of mem ftag k st = Some r -> (length r <= length st)%nat.
+Proof.
+  intros mem ftag Hm. induction k as [|k IH]; intros st r H; cbn in H.
+  - destruct st as [|[t v] st']; [injection H as <-; lia|].
+    destruct (t =? ftag); [discriminate|]. injection H as <-. lia.
+  - destruct st as [|[t v] st']; [discriminate|].
+    destruct (t =? ftag); [|discriminate].
+    dmatch H st2 E; [|discriminate].
+    pose proof (Hm _ _ E). pose proof (IH _ _ H). lia.
+Qed.
+
+Lemma c15_member_length : forall fd st r, c15_member fd st = Some r ->
+  (length r <= length st)%nat /\ (st <> [] -> (length r < length st)%nat).
+Proof.
+  intro fd. induction fd as [ft rq fs IH] using dict_field_def_ind'. intros st r H.
+  destruct fs as [|first fs'].
+  - rewrite c15_member_plain_unfold in H. injection H as <-. destruct st; cbn; split; try lia; congruence.
+  - destruct st as [|tv rest]; [rewrite c15_member_group_nil in H; discriminate|].
+    rewrite c15_member_group_unfold in H.
+    destruct (fix_int_read (snd tv)) as [n| | |]; try discriminate.
+    destruct (n <? 0); [discriminate|].
+    assert (L : (length r <= length rest)%nat).
+    { eapply c15_entries_length; [|exact H]. intros st0 r0 H0.
+      eapply c15_members_length; [|exact H0]. intros m st1 r1 Hin H1.
+      rewrite Forall_forall in IH. apply (IH m Hin st1 r1 H1). }
+    cbn [length]. split; intros; lia.
+Qed.
+
+(* ---- simulation ---- *)
+Lemma c15_members_skip_all : forall rec cds t v st r,
+  (forall m, In m cds -> dfd_tag m <> t) ->
+  c15_members_of rec cds ((t, v) :: st) = Some r ->
+  r = (t, v) :: st /\ find dfd_required cds = None.
+Proof.
+  intros rec. induction cds as [|m cds IH]; intros t v st r Hne H; cbn in H.
+  - injection H as <-. auto.
+  - assert (E : t =? dfd_tag m = false).
+    { apply Z.eqb_neq. intro Hc. apply (Hne m (or_introl eq_refl)). auto. }
+    rewrite E in H. cbn [find]. destruct (dfd_required m); [discriminate|].
+    apply IH; auto. intros m0 Hm0. apply Hne. right. exact Hm0.
+Qed.
+
+Lemma res_bind_ok {A C} (x : res A) (k : A -> res C) (a : A) (r : res C) :
+  x = Ok a -> k a = r -> bind x k = r.
+Proof. intros -> <-. reflexivity. Qed.
+
+Lemma v_fuel_mono : forall a b c : nat, (a < S b -> a * c + c <= S b * c)%nat.
+Proof.
+  intros a b c H. replace (a * c + c)%nat with (S a * c)%nat by (cbn; lia). apply Nat.mul_le_mono_r. lia.
+Qed.
+
+Section Sim.
+  Variable w : nat.      (* bound on the number of members of any group *)
+
+  (* what the specification still has to do from a state of the Go loop: finish the members of the current entry,
+     then k more entries *)
+  Definition c15_spec_cont (g : dict_field_def) (first : dict_field_def) (cds : list dict_field_def)
+      (st : list v_tv) (k : nat) : option (list v_tv) :=
+    match c15_members_of c15_member cds st with
+    | Some st2 => c15_entries_of (c15_members_of c15_member (dfd_fields g)) (dfd_tag first) k st2
+    | None => None
+    end.
+
+  Ltac fuel_tac :=
+    unfold v_tv, bytes in *; cbn [length] in *;
+    try match goal with
+        | H : (length ?a < S (length ?b))%nat |- _ => pose proof (v_fuel_mono _ _ (w + 2)%nat H)
+        end;
+    lia.
+
+  Lemma v_group_loop_sim : forall g ft rq first fs,
+    g = DFD ft rq (first :: fs) ->
+    NoDup (map dfd_tag (first :: fs)) -> (length (first :: fs) <= w)%nat ->
+    (forall m, In m (first :: fs) -> dfd_is_group m = true ->
+       forall fuel st rest, c15_member m st = Some rest -> (length st * (w + 2) < fuel)%nat ->
+       v_visit_group_field fuel m st = Ok (inr rest)) ->
+    forall fuel st cds cnt k rest,
+      incl cds (first :: fs) -> ~ In (dfd_tag first) (map dfd_tag cds) ->
+      c15_spec_cont g first cds st k = Some rest ->
+      (length st * (w + 2) + length cds + 1 < fuel)%nat ->
+      v_group_loop fuel g st cds cnt = Ok (inr (rest, cnt + Z.of_nat k)).
+  Proof.
+    intros g ft rq first fs Hg Hnd Hw Hnest.
+    induction fuel as [|f IH]; intros st cds cnt k rest Hincl Hnf Hs Hfuel; [lia|].
+    cbn [v_group_loop]. destruct st as [|[t v] st'].
+    - (* stack exhausted *)
+      unfold c15_spec_cont in Hs.
+      dmatch Hs st2 Em; [|discriminate].
+      pose proof (c15_members_length c15_member cds
+                    (fun m st r _ H => proj1 (c15_member_length m st r H)) _ _ Em) as L.
+      destruct st2; [|cbn in L; lia].
+      destruct k; cbn in Hs; [|discriminate]. injection Hs as <-.
+      rewrite Z.add_0_r. reflexivity.
+    - subst g. cbn [dfd_fields].
+      destruct (t =? dfd_tag first) eqn:Et.
+      + (* the delimiter: a new entry begins *)
+        apply Z.eqb_eq in Et. subst t.
+        unfold c15_spec_cont in Hs. cbn [dfd_fields] in Hs.
+        dmatch Hs st2 Em; [|discriminate].
+        destruct (c15_members_skip_all c15_member cds (dfd_tag first) v st' st2) as [-> Hfind]; auto.
+        { intros m Hm Hc. apply Hnf. rewrite <- Hc. apply in_map. exact Hm. }
+        rewrite Hfind.
+        destruct k as [|k]; cbn [c15_entries_of] in Hs; rewrite Z.eqb_refl in Hs; [discriminate|].
+        change (c15_members_of c15_member (first :: fs) ((dfd_tag first, v) :: st')) with
+          (if dfd_tag first =? dfd_tag first
+           then match c15_member first ((dfd_tag first, v) :: st') with
+                | Some st2 => c15_members_of c15_member fs st2
+                | None => None
+                end
+           else if dfd_required first then None
+                else c15_members_of c15_member fs ((dfd_tag first, v) :: st')) in Hs.
+        rewrite Z.eqb_refl in Hs. rewrite Z.eqb_refl.
+        match type of Hs with context [c15_member first ?S] =>
+          destruct (c15_member first S) as [st1|] eqn:E1 end; [|discriminate].
+        assert (L1 : (length st1 < length ((dfd_tag first, v) :: st'))%nat)
+          by (apply (c15_member_length first _ _ E1); discriminate).
+        apply (res_bind_ok _ _ (inr st1)).
+        { destruct (dfd_is_group first) eqn:Eg.
+          - apply Hnest; auto; [left; reflexivity|]. fuel_tac.
+          - destruct first as [ft1 r1 fs1]. unfold dfd_is_group in Eg. cbn in Eg. destruct fs1; [|discriminate].
+            rewrite c15_member_plain_unfold in E1. injection E1 as <-. reflexivity. }
+        cbv beta iota.
+        replace (cnt + Z.of_nat (S k)) with ((cnt + 1) + Z.of_nat k) by lia.
+        apply IH.
+        * intros x Hx. right. exact Hx.
+        * inversion Hnd; assumption.
+        * unfold c15_spec_cont. cbn [dfd_fields]. exact Hs.
+        * fuel_tac.
+      + (* not the delimiter *)
+        apply Z.eqb_neq in Et.
+        destruct cds as [|cd cds'].
+        * (* group complete *)
+          unfold c15_spec_cont in Hs. cbn [c15_members_of] in Hs.
+          destruct k; cbn [c15_entries_of] in Hs.
+          -- destruct (t =? dfd_tag first) eqn:E; [apply Z.eqb_eq in E; contradiction|].
+             injection Hs as <-. rewrite Z.add_0_r. reflexivity.
+          -- destruct (t =? dfd_tag first) eqn:E; [apply Z.eqb_eq in E; contradiction|discriminate].
+        * unfold c15_spec_cont in Hs. cbn [c15_members_of] in Hs.
+          assert (Hincl' : incl cds' (first :: fs)) by (intros x Hx; apply Hincl; right; exact Hx).
+          assert (Hnf' : ~ In (dfd_tag first) (map dfd_tag cds')) by (intro Hc; apply Hnf; right; exact Hc).
+          destruct (t =? dfd_tag cd) eqn:Ec.
+          -- try rewrite Ec in Hs.
+             match type of Hs with context [c15_member cd ?S] =>
+               destruct (c15_member cd S) as [st1|] eqn:E1 end; [|discriminate].
+             assert (L1 : (length st1 < length ((t, v) :: st'))%nat)
+               by (apply (c15_member_length cd _ _ E1); discriminate).
+             apply (res_bind_ok _ _ (inr st1)).
+             { destruct (dfd_is_group cd) eqn:Eg.
+               - apply Hnest; auto; [apply Hincl; left; reflexivity|]. fuel_tac.
+               - destruct cd as [ft1 r1 fs1]. unfold dfd_is_group in Eg. cbn in Eg. destruct fs1; [|discriminate].
+                 rewrite c15_member_plain_unfold in E1. injection E1 as <-. reflexivity. }
+             cbv beta iota. apply IH; auto; try (unfold c15_spec_cont; exact Hs); fuel_tac.
+          -- try rewrite Ec in Hs. destruct (dfd_required cd) eqn:Er; try rewrite Er in Hs; [discriminate|].
+             apply IH; auto; try (unfold c15_spec_cont; exact Hs); fuel_tac.
+  Qed.
+
+  (* validateVisitGroupField accepts what the specification accepts *)
+  Lemma v_visit_group_field_sim : forall g, dfd_wfb g = true -> dfd_width_okb w g = true ->
+    dfd_is_group g = true ->
+    forall fuel st rest, c15_member g st = Some rest -> (length st * (w + 2) < fuel)%nat ->
+    v_visit_group_field fuel g st = Ok (inr rest).
+  Proof.
+    intro g. induction g as [ft rq fs IHn] using dict_field_def_ind'. intros Hwf Hwd Hg fuel st rest Hs Hfuel.
+    destruct fs as [|first fs']; [discriminate|].
+    destruct (dfd_wfb_inv _ _ _ Hwf) as [Hnd Hwf'].
+    destruct (dfd_width_okb_inv _ _ _ _ Hwd) as [Hlen Hwd'].
+    destruct st as [|[num_tag value] rest0]; [rewrite c15_member_group_nil in Hs; discriminate|].
+    rewrite c15_member_group_unfold in Hs. cbn [snd] in Hs.
+    destruct fuel as [|f]; [lia|]. cbn [v_visit_group_field].
+    destruct (fix_int_read value) as [n| | |]; try discriminate.
+    destruct (n <? 0) eqn:En; [discriminate|]. apply Z.ltb_ge in En.
+    assert (Hloop : v_group_loop f (DFD ft rq (first :: fs')) rest0 [] 0 = Ok (inr (rest, 0 + Z.of_nat (Z.to_nat n)))).
+    { eapply (v_group_loop_sim (DFD ft rq (first :: fs')) ft rq first fs' eq_refl Hnd Hlen).
+      - intros m Hm Hmg fuel0 st0 rest1 H0 Hf0. rewrite Forall_forall in IHn. apply IHn; auto.
+      - intros x [].
+      - intros [].
+      - unfold c15_spec_cont. cbn [c15_members_of dfd_fields]. exact Hs.
+      - fuel_tac. }
+    rewrite Hloop. cbn [bind]. rewrite Z2Nat.id by lia. rewrite Z.add_0_l. rewrite Z.eqb_refl. reflexivity.
+  Qed.
+End Sim.
+
+(* ---- the width bound comes from the size of the definitions ---- *)
+Lemma dfd_width_okb_mono : forall fd w w', (w <= w')%nat -> dfd_width_okb w fd = true -> dfd_width_okb w' fd = true.
+Proof.
+  intro fd. induction fd as [ft r fs IH] using dict_field_def_ind'. intros w w' Hle H.
+  cbn in *. apply andb_true_iff in H. destruct H as [H1 H2]. apply andb_true_iff. split.
+  - apply Nat.leb_le. apply Nat.leb_le in H1. lia.
+  - rewrite forallb_forall in *. rewrite Forall_forall in IH. intros m Hm. eapply IH; eauto.
+Qed.
+
+Lemma v_def_size_pos : forall fd, (1 <= v_def_size fd)%nat.
+Proof. intros [ft r fs]. cbn. lia. Qed.
+
+Lemma v_def_size_sum : forall fs,
+  (length fs <= fold_right (fun c n => (v_def_size c + n)%nat) O fs)%nat /\
+  forall m, In m fs -> (v_def_size m <= fold_right (fun c n => (v_def_size c + n)%nat) O fs)%nat.
+Proof.
+  induction fs as [|a fs [IH1 IH2]]; cbn [fold_right length].
+  - split; [lia|intros m []].
+  - pose proof (v_def_size_pos a). split; [lia|]. intros m [->|Hm]; [lia|]. specialize (IH2 m Hm). lia.
+Qed.
+
+Lemma dfd_width_size : forall fd, dfd_width_okb (v_def_size fd) fd = true.
+Proof.
+  intro fd. induction fd as [ft r fs IH] using dict_field_def_ind'.
+  destruct (v_def_size_sum fs) as [S1 S2].
+  cbn [dfd_width_okb v_def_size]. apply andb_true_iff. split.
+  - apply Nat.leb_le. lia.
+  - rewrite forallb_forall. rewrite Forall_forall in IH. intros m Hm.
+    eapply dfd_width_okb_mono; [|apply IH; exact Hm]. specialize (S2 m Hm). lia.
+Qed.
+
+Lemma v_msg_def_size_in : forall sd t fd, In (t, fd) (dmd_fields sd) -> (v_def_size fd <= v_msg_def_size (Some sd))%nat.
+Proof.
+  intros sd t fd. unfold v_msg_def_size. induction (dmd_fields sd) as [|[t' fd'] l IH]; intro H; [contradiction|].
+  cbn [fold_right snd]. destruct H as [H|H]; [injection H as <- <-; lia|]. specialize (IH H). lia.
+Qed.
+
+(* ---- the whole walk ---- *)
+Definition c15_def_wfb (o : option dict_message_def) : bool :=
+  match o with
+  | Some sd => forallb (fun tf => dfd_wfb (snd tf)) (dmd_fields sd)
+  | None => true
+  end.
+(* every group of header, trailer and message lists each member once *)
+Definition c15_wf_defsb (tdd : dict) (md : dict_message_def) : bool :=
+  c15_def_wfb (dd_header tdd) && c15_def_wfb (dd_trailer tdd) && c15_def_wfb (Some md).
+
+Lemma v_walk_sim : forall tdd add s mt md w,
+  dict_bget mt (dd_messages add) = Some md ->
+  c15_wf_defsb tdd md = true ->
+  (v_msg_def_size (dd_header tdd) <= w)%nat -> (v_msg_def_size (dd_trailer tdd) <= w)%nat ->
+  (v_msg_def_size (Some md) <= w)%nat ->
+  forall fuel fuel' l seen,
+    c15_items fuel' s tdd md l seen = true ->
+    (length l * (w + 2) + 1 < fuel)%nat ->
+    v_walk_loop fuel tdd add s mt l seen = Ok None.
+Proof.
+  intros tdd add s mt md w Hmd Hwf Wh Wt Wm.
+  induction fuel as [|fuel IH]; intros fuel' l seen Hi Hf; [lia|].
+  destruct l as [|[t v] rest]; [reflexivity|].
+  destruct fuel' as [|fuel']; [discriminate|].
+  cbn [v_walk_loop]. cbn [c15_items] in Hi.
+  destruct (v_zmem t seen); [discriminate|].
+  unfold c15_def_of in Hi. rewrite Hmd.
+  assert (Hsd : forall sd, (if v_is_header t then dd_header tdd else if v_is_trailer t then dd_trailer tdd else Some md) = Some sd ->
+                forall fd, In (t, fd) (dmd_fields sd) ->
+                dfd_wfb fd = true /\ (v_def_size fd <= w)%nat).
+  { intros sd Hsd fd Hin. unfold c15_wf_defsb in Hwf. repeat rewrite andb_true_iff in Hwf. destruct Hwf as [[W1 W2] W3].
+    pose proof (v_msg_def_size_in sd t fd Hin) as Hsz.
+    destruct (v_is_header t).
+    - rewrite Hsd in W1, Wh. cbn in W1. rewrite forallb_forall in W1. split; [apply (W1 _ Hin)|lia].
+    - destruct (v_is_trailer t).
+      + rewrite Hsd in W2, Wt. cbn in W2. rewrite forallb_forall in W2. split; [apply (W2 _ Hin)|lia].
+      + injection Hsd as <-. cbn in W3. rewrite forallb_forall in W3. split; [apply (W3 _ Hin)|lia]. }
+  destruct (if v_is_header t then dd_header tdd else if v_is_trailer t then dd_trailer tdd else Some md) as [sd|];
+    [|discriminate].
+  destruct (dict_zget t (dmd_fields sd)) as [fd|] eqn:Ez.
+  - match type of Hi with context [c15_member fd ?S] => destruct (c15_member fd S) as [rest'|] eqn:Em end; [|discriminate].
+    apply andb_true_iff in Hi. destruct Hi as [Hlen Hi]. apply Nat.ltb_lt in Hlen.
+    destruct (Hsd sd eq_refl fd (dict_zget_In _ _ _ _ Ez)) as [Hwfd Hszd].
+    apply (res_bind_ok _ _ (inr rest')).
+    + unfold v_visit_field. destruct (dfd_is_group fd) eqn:Eg.
+      * apply (v_visit_group_field_sim w); auto.
+        -- eapply dfd_width_okb_mono; [exact Hszd|apply dfd_width_size].
+        -- unfold v_tv, bytes in *. cbn [length] in *. lia.
+      * destruct fd as [ft1 r1 fs1]. unfold dfd_is_group in Eg. cbn in Eg. destruct fs1; [|discriminate].
+        rewrite c15_member_plain_unfold in Em. injection Em as <-. reflexivity.
+    + cbv beta iota. eapply IH; eauto.
+      unfold v_tv, bytes in *. cbn [length] in *.
+      pose proof (v_fuel_mono _ _ (w + 2)%nat Hlen). lia.
+  - apply andb_true_iff in Hi. destruct Hi as [Ht Hi].
+    assert (G : v_check_field_not_defined s t = c15_tolerated s t).
+    { unfold v_check_field_not_defined, c15_tolerated.
+      destruct (t <? USER_DEFINED_TAG_MIN); [apply negb_involutive|reflexivity]. }
+    rewrite G, Ht. cbn [negb]. eapply IH; eauto.
+    unfold v_tv, bytes in *. cbn [length] in *. lia.
+Qed.
